@@ -258,3 +258,11 @@ Section Descent.
     apply (segment_complete root sr b k); assumption.
   Qed.
 End Descent.
+
+(** [descent_sound] is satisfiable: the clipping that never prunes (every guard false) with the
+    trivial invariants *)
+Example descent_sound_inhabited :
+  descent_sound unit (fun _ _ => false) (fun _ _ => false) (fun _ _ => false) (fun _ _ => false)
+                (fun _ b => (b, b)) (fun _ b => (b, b)) (fun c i j => 4 * c + 2 * i + j)
+                (fun _ => True) (fun _ _ => True) (fun _ _ _ => True).
+Proof. constructor; intros; try discriminate; auto. Qed.
